@@ -11,4 +11,7 @@ UNITS = {
     #    against the shape the hand-written model (coq/Model/Router.v) follows; any other shape raises
     #    (fail closed), reported as the broken obligation translate:GenRouter.
     "GenRouter": dict(props=["C10", "C01"], dumper="dump_c10.py", args=[]),
+    # Shape of the deprecated build_routing_tables (rig/place_and_route/utils.py) and the defaults of
+    # remove_default_routes.minimise it relies on, read with `ast` by tools/dump_c10w.py (fail closed).
+    "GenTablesWrapper": dict(props=["C10"], dumper="dump_c10w.py", args=[]),
 }
